@@ -111,7 +111,8 @@ def check(d, tier="quick", props=None, seed=None):
             rc, o = sh([os.path.join(VERIF, "bin", "check"), p, tier], cwd=VERIF, env=e, timeout=4 * 3600)
             viol = [l for l in o.splitlines() if l.startswith("VIOLATION")]
             first = next((l.strip() for l in o.splitlines() if l.startswith("  monitor=")), "")
-            out[p] = dict(rc=rc, killed=(rc == 1 and bool(viol)), violation_lines=len(viol), wall_s=round(time.time() - t0, 1), first=first[:400],
+            mons = sorted(set(l.strip().split()[0] for l in o.splitlines() if l.startswith("  monitor=")))
+            out[p] = dict(rc=rc, killed=(rc == 1 and bool(viol)), violation_lines=len(viol), wall_s=round(time.time() - t0, 1), first=first[:400], monitors=mons,
                           tail=("" if rc == 1 else o[-800:]))
     finally:
         shutil.rmtree(tmp, ignore_errors=True)
